@@ -713,6 +713,13 @@ func GenRun(verifSeed uint64, run int, tier string, profiles []string) *RunSpec 
 	}
 	sc.DropRate = []float64{0, 0, 0.001, 0.01, 0.05}[cfgR.Intn(5)]
 	sc.LivePct = []int{100, 70, 70, 40}[cfgR.Intn(4)]
+	switch spec.Profile {
+	case "geometry", "geometry1", "fonts", "text", "syscache":
+		// time passes between calls in two thirds of the runs whose results carry no time stamps
+		// (PDF/PS CreationDate, head.modified of embedded fonts); not drawn from cfgR so that the
+		// programs and schedules of all runs stay what they were before this fault kind existed
+		sc.ClockSkipPct = []int{0, 15, 40}[simrt.Mix(seed, 0xc10c)%3]
+	}
 	spec.Sim = sc
 	return spec
 }
